@@ -350,6 +350,7 @@ def check(pid, tier, seed):
     if os.path.exists(corpus):
         lines += run_requests([l.split(' => ')[0].strip() for l in open(corpus) if l.strip() and not l.startswith('#')])
     gens = cfg['gens'](seed, thorough)
+    harness_failures = []
     for g in gens:
         if callable(g):
             lines += g(); continue
@@ -357,9 +358,13 @@ def check(pid, tier, seed):
         if rc == 3 and out.rstrip().endswith('=> hang'):
             rc = 0   # the watchdog answered for a request that did not return: an answer like any other
         if rc != 0:
+            # the harness process died inside this generator (an abort in the code under test, e.g. a failed assertion in a
+            # destructor): the other generators still run, so that a concrete failing input can be found; if none is, this
+            # failure is what is reported
             print(out[-2000:]); print(f'harness failed: {g}')
-            path = write_replay(pid, seed, 'harness', {'property': pid, 'what': 'harness run failed', 'args': g, 'log': out[-4000:]})
-            print(f'VIOLATION property={pid} replay={path} no-failing-input-found'); return 1
+            harness_failures.append({'args': g, 'log': out[-4000:]})
+            lines += [l for l in out.splitlines() if ' => ' in l]
+            continue
         lines += out.splitlines()
     # release profile: the same generators through the harness built with the release profile (what is shipped: no
     # overflow checks, no debug assertions). Where the model predicts a panic of the dev profile the release build
@@ -474,8 +479,13 @@ def check(pid, tier, seed):
             'replay': f'./check {pid} --replay <this file>'}
         if proof['problems']: body['proof_layer_problems'] = proof['problems']
         if disagreements: body['model_disagreements'] = len(disagreements)
+        if harness_failures: body['harness_failures'] = harness_failures
         path = write_replay(pid, seed, 0, body)
         violations.append((path, ''))
+    elif harness_failures:
+        path = write_replay(pid, seed, 'harness', {'property': pid, 'what': 'harness run failed', 'args': harness_failures[0]['args'], 'log': harness_failures[0]['log'],
+                                                   'all_failures': [h['args'] for h in harness_failures], 'proof_layer_problems': proof['problems']})
+        violations.append((path, ' no-failing-input-found'))
     elif proof['problems'] or disagreements:
         body = {'property': pid, 'what': 'the property is no longer shown to hold; no failing input found', 'searched_cases': searched}
         if proof['problems']:
